@@ -29,7 +29,7 @@ func init() {
 
 var (
 	poolPlain = []rune("abcxyzAB019_- \n.") // '.' etc. are escaped by the printer
-	poolWide  = []rune{'é', 'λ', 'ж', '中', 0x0301, 0x1F600, 'ß'}
+	poolWide  = []rune{'é', 'λ', 'ж', '中', 0x0301, 0x1F600, 'ß', 0xFFFD}
 )
 
 // specProfile builds the C01 fragment profile for one pattern.
